@@ -2,7 +2,7 @@
    only), and the dispatcher run : sx -> sx that the extracted driver and the
    vm_compute cross-check both call. *)
 From SV Require Export Model.Num Model.Expr Model.Heap Model.Plot Model.Prim.
-From SV Require Import Lemmas.Measure Lemmas.UnionSound Lemmas.DiffSound Lemmas.Convex.
+From SV Require Import Lemmas.Measure Lemmas.UnionSound Lemmas.DiffSound Lemmas.Convex Lemmas.SubsetConvex.
 Open Scope Q_scope.
 
 Fixpoint sx_eqb (x y : sx) : bool :=
@@ -316,6 +316,16 @@ Definition run (req : sx) : sx :=
                  e_bool (sound_hyps_b ja jb true false p); e_bool (sound_hyps_b ja jb false true p);
                  e_bool (diff_hyps_b ja jb p); e_jordan ja; e_jordan jb]
           | _, _, _ => bad end
+      | 50%nat, [va; vb] =>
+          (* Props/C03.v C03_convex_in_iff on two vertex lists: convexity, the two decidable hypotheses, the
+             model's answer, and the curves the theorem speaks about *)
+          match d_listx d_point va, d_listx d_point vb with
+          | Some va, Some vb =>
+              let ja := poly_of va in let jb := poly_of vb in
+              L [e_bool (convex_ccw_b va); e_bool (convex_ccw_b vb); e_bool (tol_tested_b ja jb);
+                 e_bool (negb (Qlt_bool (jordan_area ja) (jordan_area jb)));
+                 e_res e_bool (simple_has_simple ja jb); e_jordan ja; e_jordan jb]
+          | _, _ => bad end
       | 43%nat, [k; a; c] =>
           match d_nat k, d_pyarg a, d_point c with
           | Some k, Some a, Some c =>
